@@ -24,6 +24,7 @@ fn p_c01() -> Profile {
     p.w_rewards = 10;
     p.w_recover = 9;
     p.w_resolve = 16;
+    p.w_burst = 2;
     p.sweep = true;
     p
 }
@@ -43,6 +44,7 @@ fn p_c02() -> Profile {
     p.w_unstake = 11;
     p.w_submit = 9;
     p.w_config = 4;
+    p.w_burst = 2;
     p
 }
 fn nt_c02(s: &Stats) -> bool {
@@ -55,6 +57,8 @@ fn p_c03() -> Profile {
     p.w_stake = 22;
     p.w_rewards = 9;
     p.w_resume = 3;
+    p.w_burst = 2;
+    p.w_recover = 9;
     p.len = (25, 70);
     p
 }
@@ -74,6 +78,7 @@ fn p_c05() -> Profile {
     p.w_advance = 6;
     p.w_recover = 2;
     p.w_stray = 0;
+    p.w_churn = 1;
     p.fail_injection = false;
     p
 }
@@ -90,6 +95,7 @@ fn p_c06() -> Profile {
     p.w_unstake = 12;
     p.w_stake = 9;
     p.w_config = 4;
+    p.w_churn = 1;
     p
 }
 fn nt_c06(s: &Stats) -> bool {
@@ -107,6 +113,7 @@ fn p_c07() -> Profile {
     p.w_traffic = 4;
     p.w_withdraw = 3;
     p.w_deliver = 3;
+    p.w_burst = 3;
     p
 }
 fn nt_c07(s: &Stats) -> bool {
@@ -206,6 +213,7 @@ fn p_c17() -> Profile {
     p.w_submit = 8;
     p.w_deliver = 8;
     p.w_stake = 8;
+    p.w_churn = 1;
     p.fail_injection = false;
     p
 }
